@@ -451,9 +451,21 @@ def h_case(ctx, case, times):
         _cmp(ctx, '%s%s same on the copy' % (name, kw or ''), want, got)
 
 
-def h_reactions_members(ctx, times):
+def mk_Reactions_shared_names(ctx):
+    """a reaction set in which two different species carry the same name (e.g. two fits of one molecule) and two have none"""
+    from pmutt.reaction import Reactions, Reaction
+    a, b, c_, t = _species3(ctx)
+    c2 = _nasa(ctx, 'C2.', name=c_.name)            # same name as c_, different coefficients
+    u1, u2 = _nasa(ctx, 'U1.', name=None), _nasa(ctx, 'U2.', name=None)
+    r1 = Reaction(reactants=[a], reactants_stoich=[1.], products=[c_], products_stoich=[1.])
+    r2 = Reaction(reactants=[b], reactants_stoich=[1.], products=[c2], products_stoich=[1.])
+    r3 = Reaction(reactants=[u1], reactants_stoich=[1.], products=[u2], products_stoich=[1.])
+    return Reactions(reactions=[r1, r2, r3])
+
+
+def h_reactions_members(ctx, times, shared=False):
     from pmutt.reaction import Reactions
-    obj = mk_Reactions(ctx)
+    obj = mk_Reactions_shared_names(ctx) if shared else mk_Reactions(ctx)
     T = ctx.real('T', 300, 2000)
     copy = obj
     try:
@@ -501,4 +513,6 @@ def groups(tier):
         g.append(dict(name='%s/decoder-repeatable' % case, harness=h_repeatable, params=dict(case=case), no_validate=True))
     for times in (1, 2):
         g.append(dict(name='Reactions/members/x%d' % times, harness=h_reactions_members, params=dict(times=times), no_validate=True))
+        g.append(dict(name='Reactions/members-with-shared-or-missing-species-names/x%d' % times, harness=h_reactions_members,
+                      params=dict(times=times, shared=True), no_validate=True))
     return g
